@@ -30,6 +30,24 @@ type Disk struct {
 	record bool
 	reads  uint64
 	closed bool
+	gate   chan struct{} // non-nil: writes block until it is closed (the device stopped accepting writes)
+}
+
+// CloseGate makes every later Write block until OpenGate; it returns the disk contents at that moment.
+func (d *Disk) CloseGate() map[uint64][]byte {
+	d.mu.Lock()
+	d.gate = make(chan struct{})
+	d.mu.Unlock()
+	return d.Snapshot()
+}
+
+func (d *Disk) OpenGate() {
+	d.mu.Lock()
+	if d.gate != nil {
+		close(d.gate)
+		d.gate = nil
+	}
+	d.mu.Unlock()
 }
 
 var zeroBlock = make([]byte, BlockSize)
@@ -90,6 +108,12 @@ func (d *Disk) Write(a uint64, v []byte) {
 	b := make([]byte, BlockSize)
 	copy(b, v)
 	d.mu.Lock()
+	for d.gate != nil {
+		g := d.gate
+		d.mu.Unlock()
+		<-g
+		d.mu.Lock()
+	}
 	if a >= d.size {
 		d.mu.Unlock()
 		panic("crashdisk: write out of bounds")
